@@ -87,6 +87,13 @@ pub fn gen_base(rng: &mut Rng, cfg: &BaseCfg) -> (J, StdTable, Sel, Shape) {
     let mid_ints = cfg.order_insensitive_only && !big_ints && n <= 40 && rng.chance(1, 8);
     if mid_ints { dc.mid_ints = true; }
     if rng.chance(1, 12) { dc.zeros = true; }
+    // REAL values one rounding step apart (distinct keys, distinct MIN / MAX candidates), and whole REALs beyond the 64-bit integers
+    let ulp_reals = n <= 40 && rng.chance(1, 10);
+    if ulp_reals { dc.ulp_reals = true; }
+    if !ulp_reals && rng.chance(1, 16) { dc.huge_reals = true; }
+    // plain / DISTINCT / joined rows over integers that are distinct but equal as doubles
+    let big_rows = !big_ints && !mid_ints && n <= 40 && rng.chance(1, 8);
+    if big_rows { dc.big_ints = true; }
     let mut lines = std_lines(rng, &t, n, &dc);
     // empty lines, blanks and foreign text between the records (rows only where a DEFAULT makes them rows)
     if rng.chance(1, 5) { for _ in 0..(1 + rng.below(4)) { let at = rng.below(lines.len() + 1); lines.insert(at, rng.pick(&["", "", " ", "garbage", "{}", "k="]).to_string()); } }
@@ -103,8 +110,9 @@ pub fn gen_base(rng: &mut Rng, cfg: &BaseCfg) -> (J, StdTable, Sel, Shape) {
                 s = Sel { from: "t".into(), group_by: Some(vec![col("k")]), ..Default::default() };
                 s.projs = vec![(col("k"), None), (E::Agg("stddev".into(), false, vec![col("i")]), None), (E::Agg("variance".into(), false, vec![col("i")]), Some("v".into())), (E::Agg("avg".into(), false, vec![col("i")]), None), (E::Agg("sum".into(), false, vec![col("i")]), None), (E::Agg("count".into(), false, vec![E::Star]), None)];
             }
-            if big_ints {
-                let risky = |s: &Sel| { let txt = s.text(Paren::Full); txt.contains("stddev") || txt.contains("variance") || txt.contains("sum") || txt.contains("avg") || txt.contains(" * ") || txt.contains(" + ") || txt.contains(" - ") || txt.contains("pow") };
+            if ulp_reals && t.schema.ty_of("r").is_some() && rng.chance(1, 2) { crate::gen::rekey(&mut s, "r"); }
+            if big_ints || big_rows {
+                let risky = |s: &Sel| crate::gen::big_int_risky(s);
                 for _ in 0..20 { if !risky(&s) { break; } s = gen_aggregate(rng, &t.schema, &acfg); }
                 if risky(&s) {
                     s = Sel { from: "t".into(), group_by: Some(vec![col("k")]), ..Default::default() };
@@ -135,6 +143,6 @@ pub fn gen_base(rng: &mut Rng, cfg: &BaseCfg) -> (J, StdTable, Sel, Shape) {
         }
     }
     let mut u = t.spec.clone(); u.name = "u".into();
-    let case = json!({"tables": format!("{} {}", t.spec.text(), u.text()), "stmt": sel.text(Paren::Full), "lines": lines, "joined": joined, "shape": format!("{:?}", shape), "big_ints": big_ints, "exact_ints": mid_ints});
+    let case = json!({"tables": format!("{} {}", t.spec.text(), u.text()), "stmt": sel.text(Paren::Full), "lines": lines, "joined": joined, "shape": format!("{:?}", shape), "big_ints": big_ints || big_rows, "exact_ints": mid_ints});
     (case, t, sel, shape)
 }
